@@ -92,3 +92,77 @@ def gen_case(rng, plausible=True, malformed=False):
         else:
             typed.append([])
     return [3000, specs, typed, quit_, 1 if (malformed and rng.random() < 0.5) else 0, acts]
+
+
+def L(s):
+    return [lib.cps(s)]
+
+
+def gen_focus_case(rng, prop):
+    """Property-specific families of sessions."""
+    if prop == "C07":
+        # rejection streaks on two interleaved screens, quit dialog with / without answer
+        n = 3
+        junk = ["x", "zz", "", "9"]
+        s0 = spec(inputs=[("1", [[0, 1, 0]], [0]), ("2", [], [3]), ("3", [], [5])], default=([], None))
+        s1 = spec(inputs=[("1", [], [2]), ("2", [], [3]), ("3", [], [1])], default=([], rng.choice([None, [3]])))
+        qd = spec(inputs=[("1", [[13, 1]], [2]), ("2", [[13, 2]], [2]), ("3", [], [2])])
+        typed = []
+        for _ in range(rng.randrange(1, 4)):
+            typed += [L(rng.choice(junk + ["2", "3"])) for _ in range(rng.randrange(3, 13))]
+            typed.append(L(rng.choice(["1", "r", "q", "c"])))
+            if typed[-1] == L("q"):
+                typed.append(L(rng.choice(["1", "2", "3"])))
+        quit_ = [2] if rng.random() < 0.6 else []
+        return [3000, [s0, s1, qd], typed, quit_, 0, [[0, [3, 0, 0]], [1]]]
+    if prop == "C18":
+        # overlapping requests: a callback asks for input while the screen's own prompt is outstanding
+        skip = 1 if rng.random() < 0.7 else 0
+        s0 = spec(inputs=[("1", [[11]], [0]), ("2", [[11], [11]], [1]), ("3", [[0, 1, 0]], [0])],
+                  refresh=[[15, rng.choice([0, 1, 2]), [[11]], []]] if rng.random() < 0.5 else [], skip=skip,
+                  pages=rng.choice([0, 0, 1]))
+        s1 = spec(inputs=[("1", [[11]], [2]), ("2", [], [2])], skip=1 if rng.random() < 0.5 else 0,
+                  show=[[15, 1, [[11]], []]] if rng.random() < 0.3 else [])
+        typed = [L(rng.choice(["1", "2", "3", "a", "", "c"])) for _ in range(rng.randrange(3, 14))]
+        if rng.random() < 0.2:
+            typed.insert(rng.randrange(len(typed)), [])
+        return [3000, [s0, s1], typed, [], 0, [[0, [3, 0, 0]], [1]]]
+    if prop == "C08":
+        s0 = spec(inputs=[("1", [[0, 1, 0]], [0]), ("2", [[0, 2, 5]], [0]), ("3", [[1, 1, 0]], [0])])
+        s1 = spec(setup=rng.choice([[0], [0, 1], [0, 0, 1], []]), inputs=[("1", [], [2]), ("2", [[2, 2, 0]], [0])],
+                  refresh=[[15, 1, [[4]], []]] if rng.random() < 0.3 else [], closed=[[14, 1]])
+        s2 = spec(setup=rng.choice([[], [], [0, 1]]), inputs=[("1", [], [2]), ("2", [[0, 1, 0]], [0])],
+                  show=[[15, 1, [[4]], []]] if rng.random() < 0.3 else [], closed=[[14, 2]])
+        typed = [L(rng.choice(["1", "2", "3", "c", "r"])) for _ in range(rng.randrange(4, 16))]
+        return [3000, [s0, s1, s2], typed, [], 0, [[0, [3, 0, 0]] + ([[3, 2, 0]] if rng.random() < 0.4 else []), [1]]]
+    if prop == "C05":
+        # modal pushed from input / refresh / show_all / another modal, depth up to 4
+        n = 5
+        specs = []
+        for i in range(n):
+            nxt = (i + 1) % n
+            inputs = [("1", [[1, nxt, 0]], [0]), ("2", [], [2]), ("3", [rng.choice([[0, nxt, 0], [2, nxt, 0], [4]])], [0])]
+            refresh = [[15, 1, [[1, nxt, 7]], []]] if rng.random() < 0.2 and i > 0 else []
+            show = [[15, 1, [[1, nxt, 7]], []]] if rng.random() < 0.15 and i > 0 else []
+            specs.append(spec(inputs=inputs, refresh=refresh, show=show, pages=rng.choice([0, 0, 0, 1])))
+        typed = [L(rng.choice(["1", "1", "2", "3", "c", "r", "x"])) for _ in range(rng.randrange(4, 18))]
+        return [3000, specs, typed, [], 0, [[0, [3, 0, 0]], [1]]]
+    if prop == "C06":
+        n = 4
+        specs = [spec(inputs=[("1", [[rng.choice([0, 1, 2]), (i + 1) % n, rng.choice([0, 3])]], [0]), ("2", [], [2]), ("3", [], [1])],
+                      default=([], rng.choice([None, [0], [3]]))) for i in range(n)]
+        typed = []
+        for _ in range(rng.randrange(5, 20)):
+            r = rng.random()
+            typed.append([] if r < 0.05 else L(rng.choice(["1", "2", "3", "", " x ", "hello world", "c", "r", "é世"])))
+        return [3000, specs, typed, [], 0, [[0, [3, 0, 4], [3, 1, 0]], [1]]]
+    # C04 / C17: many stack operations from input
+    n = 4
+    specs = []
+    for i in range(n):
+        o = [x for x in range(n) if x != i]
+        specs.append(spec(inputs=[("1", [[0, rng.choice(o), rng.choice([0, 2])]], [0]), ("2", [[2, rng.choice(o), 0]], [0]),
+                                  ("3", [[rng.choice([1, 3]), rng.choice(o), 0]], [0])],
+                          nosep=1 if rng.random() < 0.3 else 0))
+    typed = [L(rng.choice(["1", "2", "3", "c", "c", "r"])) for _ in range(rng.randrange(4, 18))]
+    return [3000, specs, typed, [], 0, [[0, [3, 0, 0]], [1]]]
